@@ -15,6 +15,7 @@ pub fn run(id: &str) -> Result<String, String> {
         "F25" => f25(),
         "F26" => f26(),
         "F27" => f27(),
+        "F28" => f28(),
         _ => Err(format!("unknown witness {id}")),
     }
 }
@@ -314,5 +315,35 @@ fn f27() -> Result<String, String> {
         if r.is_err() { bad.push(what); }
     }
     if !bad.is_empty() { return Err(format!("Record::ids().iter() / Record::end() PANICS on a bcf record with: {}", bad.join("; "))); }
+    Ok(format!("\"cases\":{n}"))
+}
+
+/// F28: fasta region query whose start lies beyond the end of the sequence must not return bytes of the next record.
+fn f28() -> Result<String, String> {
+    use std::io::Cursor;
+    let mut bad = Vec::new();
+    let mut n = 0;
+    let sets: Vec<(&[u8], Vec<(&str, &str)>)> = vec![
+        (b">sq0\nACGT\nAC\n>sq1 desc\nGGGG\n", vec![("sq0:1-6", "ACGTAC"), ("sq0:5-100", "AC"), ("sq0:6-7", "C"), ("sq0:7-9", ""), ("sq0:8-9", ""), ("sq0:9-12", ""), ("sq0:12-20", ""), ("sq0:15-20", "")]),
+        // CRLF first line, LF-only full last line: accepted by the indexer (last line may be narrower)
+        (b">sq0\nACGT\r\nACGT\n>sq1\nGGGG\n", vec![("sq0:1-8", "ACGTACGT"), ("sq0:8-9", "T"), ("sq0:9-10", ""), ("sq0:10-12", "")]),
+        (b">sq0\nACGT\nACGT\n>sq1\nGGGG\n", vec![("sq0:9-10", ""), ("sq0:8", "T"), ("sq1:4-9", "G"), ("sq1:5-9", "")]),
+    ];
+    for (data, cases) in sets {
+        let mut indexer = noodles_fasta::io::Indexer::new(data);
+        let mut records = Vec::new();
+        while let Some(r) = indexer.index_record().map_err(|e| format!("index: {e}"))? { records.push(r); }
+        let index = noodles_fasta::fai::Index::from(records);
+        for (region, expected) in cases {
+            n += 1;
+            let mut reader = noodles_fasta::io::Reader::new(Cursor::new(data.to_vec()));
+            let region: noodles_core::Region = region.parse().map_err(|e| format!("region: {e}"))?;
+            match reader.query(&index, &region) {
+                Ok(rec) => { let got = String::from_utf8_lossy(rec.sequence().as_ref()).to_string(); if got != expected { bad.push(format!("{region} of {:?} -> {got:?} (expected {expected:?})", String::from_utf8_lossy(data))); } }
+                Err(_) => {} // an error is not a wrong answer
+            }
+        }
+    }
+    if !bad.is_empty() { return Err(format!("fasta Reader::query returns bytes of the NEXT record for a start beyond the sequence end: {}", bad.join("; "))); }
     Ok(format!("\"cases\":{n}"))
 }
